@@ -256,16 +256,19 @@ def AS.get (cfg : Cfg) (a : AS) : AS × GetRes :=
 def putLegal (s : HS) (nid j : Nat) : Bool :=
   if s.putDraws nid then decide (1 ≤ j ∧ j ≤ s.size) else j == 0
 
+/-- the `randint` the model goes on with: the recorded one if it was possible, else a legal one -/
+def putDraw (s : HS) (nid j : Nat) : Nat :=
+  if putLegal s nid j then j else (if s.putDraws nid then 1 else 0)
+
 /-- `PutWrapper()` of dispatch `r`; `j` the `random.randint` of `__Put` (0 if none is drawn) -/
 def AS.put (cfg : Cfg) (a : AS) (r j : Nat) : AS :=
   match a.hs.reqs[r]? with
   | none => { a with bad := true }
   | some (_, true) => a
   | some (nid, false) =>
-    if putLegal a.hs nid j = false then { a with bad := true }
-    else
-      let a1 : AS := { a with hs := a.hs.put r j }
-      if cfg.aperture then a1.adjust cfg (-1) else a1
+    let a0 : AS := if putLegal a.hs nid j then a else { a with bad := true }
+    let a1 : AS := { a0 with hs := a.hs.put r (putDraw a.hs nid j) }
+    if cfg.aperture then a1.adjust cfg (-1) else a1
 
 /-- the environment changes a channel's state -/
 def AS.setChan (a : AS) (nid st : Nat) : AS :=
